@@ -48,7 +48,7 @@ func containsKey(op string, a, b *exact.Shape, closedA bool, ic IdxCfg, got bool
 	return uint64(h.B(closedA).S(ic.String()).B(got))
 }
 
-func c03Judge(c *mon.Ctx, a, b *exact.Shape, family string, corpus, closedA bool, cfgs []IdxCfg, objLevel bool) {
+func c03Judge(c *mon.Ctx, a, b *exact.Shape, family string, corpus, closedA bool, cfgs []IdxCfg, objLevel, scaled bool) {
 	want := exact.Contains(a, b)
 	if want && !exact.Intersects(a, b) {
 		panic("oracle self-check: contains without intersects")
@@ -127,6 +127,34 @@ func c03Judge(c *mon.Ctx, a, b *exact.Shape, family string, corpus, closedA bool
 			}
 		}
 	})
+	if scaled && c03Snap == nil {
+		sc := libScales[int(uint64(hashShape(mon.NewH(), b))%uint64(len(libScales)))]
+		c.Try(func() {
+			ic := cfgs[len(cfgs)-1]
+			la, lb := buildLibScaled(a, ic, closedA, sc), buildLibScaled(b, ic, !closedA, sc)
+			var got bool
+			ev := traced(func() { got = gContains(la, lb) })
+			c.Eval()
+			c.Count("scaled_pairs")
+			if got == want {
+				return
+			}
+			at := attributeScaled(ev, sc)
+			// the library's behaviour is exactly scale invariant, so the same keys and the same corpus hash apply
+			h := containsKey("contains", a, b, closedA, ic, got)
+			cs := pairCase(a, b, map[string]interface{}{"family": family, "index": ic.String(), "closed_a": closedA, "scale": sc, "got": got, "want": want, "attribution": at})
+			if got && !want && len(at.Disagreeing) == 0 && a.Kind == exact.KPoly && len(a.Holes) > 0 && b.HasInterior() && boundaryInside(a, b) {
+				c.KnownOrViolation("F24", "contains covered-hole", "B covers a hole of A (scaled)", cs)
+				return
+			}
+			detail := fmt.Sprintf("%s contains %s with every coordinate multiplied by %g: library %v, exact %v", a.Kind, b.Kind, sc, got, want)
+			if id, _ := classifyWrong(at, corpus, h); id != "" {
+				c.KnownOrViolation(id, "contains-scaled", detail, cs)
+			} else {
+				c.Violation("contains-scaled", detail, cs)
+			}
+		})
+	}
 	c.Count(fmt.Sprintf("pairs_%s_%s", a.Kind, b.Kind))
 	if want {
 		c.Count(fmt.Sprintf("true_%s_%s", a.Kind, b.Kind))
@@ -153,7 +181,7 @@ func c03Run(c *mon.Ctx) {
 		if !corpus {
 			cfgs = idxFor(max(len(a.Ext), len(a.Pts)), n)
 		}
-		c03Judge(c, a, b, family, corpus, closedA, cfgs, !corpus || item%7 == 0)
+		c03Judge(c, a, b, family, corpus, closedA, cfgs, !corpus || item%7 == 0, (corpus && item%3 == 0) || (!corpus && n%4 == 0))
 		if boxInside(a, b) {
 			c.NonTrivial(uint64(hashShape(hashShape(mon.NewH(), a), b)))
 		}
@@ -191,7 +219,7 @@ func c03Replay(kind string, raw json.RawMessage) (bool, string) {
 }
 
 func init() {
-	must := []string{"corpus_done"}
+	must := []string{"corpus_done", "scaled_pairs"}
 	for _, ka := range kinds4 {
 		for _, kb := range kinds4 {
 			must = append(must, fmt.Sprintf("pairs_%s_%s", ka, kb))
